@@ -75,7 +75,7 @@ func newKeyShortcutAdditionalProperties(astNode schema.ASTNode) *AdditionalPrope
 		if an.IsKeyShortcut {
 			if hasAdditionalPropertiesRule {
 				if (ap.TokenType == schema.TokenTypeBoolean && ap.Value == internal.StringTrue) ||
-					(ap.TokenType == schema.TokenTypeString && ap.Value == internal.StringAny) {
+					(ap.TokenType == schema.TokenTypeString && admitsEverything(ap.Value)) {
 					return nil
 				}
 			}
@@ -84,6 +84,13 @@ func newKeyShortcutAdditionalProperties(astNode schema.ASTNode) *AdditionalPrope
 	}
 
 	return nil
+}
+
+// admitsEverything tells the type names that relate to every type: "any", and
+// "enum" / "mixed", which name no values of their own in this rule. Additional
+// properties of such a type stay unconstrained.
+func admitsEverything(typeName string) bool {
+	return typeName == internal.StringAny || typeName == internal.StringEnum || typeName == internal.StringMixed
 }
 
 func newAnyOfAdditionalProperties(node schema.ASTNode) *AdditionalProperties {
@@ -108,7 +115,7 @@ func newStringAdditionalProperties(r schema.RuleASTNode) *AdditionalProperties {
 		return &AdditionalProperties{mode: additionalPropertiesObject}
 	}
 
-	if r.Value == internal.StringAny {
+	if admitsEverything(r.Value) {
 		return nil
 	}
 
